@@ -61,7 +61,7 @@ def best_sim(measure, a, b):
 
 def count_tables(N, variant):
     """one row per token count 1..N on both sides; variant picks the tokens (counts are the same)"""
-    lrows, rrows = [], []
+    lrows, rrows = [[0, ''], [-1, '  ']], [[0, ''], [-1, ' ']]      # zero-token rows on both sides
     for a in range(1, N + 1):
         if variant == 0:
             lt = ['l%d_%d' % (a, i) for i in range(a)]
@@ -87,7 +87,7 @@ def size_case(case, rec, ssj, tables_cache):
         if (N, variant) not in tables_cache:
             if variant == 2:
                 L0, R0 = count_tables(N, 1)
-                rows = T.spec_rows(L0)[::-1]          # same rows, reversed order, shifted keys stay
+                rows = T.spec_rows(L0)[::-1]          # same rows, reversed order
                 tables_cache[(N, variant)] = (T.table_spec(['id', 's'], rows, dtypes={'s': 'object'}), R0)
             else:
                 tables_cache[(N, variant)] = count_tables(N, variant)
@@ -101,9 +101,17 @@ def size_case(case, rec, ssj, tables_cache):
             rec.count('calls_raised')
             rec.add('raised', '%s: %s' % (type(e).__name__, str(e)[:80]))
             return {'keep': 0, 'drop': 0}
-        kept = set(zip(df['l_id'].tolist(), df['r_id'].tolist()))
+        kept_all = set(zip(df['l_id'].tolist(), df['r_id'].tolist()))
+        # a pair with exactly one zero-token side can never reach a positive threshold: must be dropped
+        for (a, b) in kept_all:
+            if (a <= 0) != (b <= 0):
+                rec.violation('size_tight', 'SizeFilter(%s,%r) keeps a pair of a zero-token value and a value '
+                              'with %d tokens (best attainable similarity 0)' % (m, t, max(a, b)), case=case)
+                break
+        kept = set(p for p in kept_all if p[0] > 0 and p[1] > 0)
         decisions.append(kept)
         rec.count('size_cells', N * N)
+        rec.count('zero_token_rows_probed', 4)
     if decisions[0] != decisions[2]:
         d = sorted(decisions[0] ^ decisions[2])[:3]
         rec.violation('counts_alone', 'SizeFilter(%s,%r): the same filter object decides differently on a '
@@ -140,7 +148,7 @@ def size_case(case, rec, ssj, tables_cache):
         cells.extend((a, b) for b in bs)
         cells.extend((a, b + 1) for b in bs if b + 1 <= N)
     for (a, b) in cells:
-        d = flt.filter_pair(lv[a - 1], rv[b - 1])
+        d = flt.filter_pair(lv[a + 1], rv[b + 1])
         rec.count('size_pair_calls')
         if bool(d) == ((a, b) in kept):
             rec.violation('size_pair_vs_tables', 'SizeFilter(%s,%r): filter_pair says dropped=%r for '
@@ -251,9 +259,11 @@ def subset_case(case, rec, ssj):
     L, R, tok = gen.random_table_pair(rng, tok=tok, max_rows=10, missing=0.05,
                                       vocab_size=rng.choice([4, 8, 30]))
     outs = {}
+    n_jobs = rng.choice([1, 1, 2, 3])
     for kind in ('PositionFilter', 'PrefixFilter', 'SizeFilter'):
         call = {'api': 'filter_tables', 'filter': dict(fspec, kind=kind), 'ltable': L, 'rtable': R,
-                'l_key': 'lid', 'r_key': 'rid', 'l_attr': 'lattr', 'r_attr': 'rattr', 'tok': tok, 'n_jobs': 1}
+                'l_key': 'lid', 'r_key': 'rid', 'l_attr': 'lattr', 'r_attr': 'rattr', 'tok': tok,
+                'n_jobs': n_jobs}
         try:
             df = T.exec_call(ssj, call)
         except Exception as e:
@@ -265,9 +275,31 @@ def subset_case(case, rec, ssj):
     for other in ('PrefixFilter', 'SizeFilter'):
         extra = outs['PositionFilter'] - outs[other]
         if extra:
-            rec.violation('refinement', '%s: PositionFilter.filter_tables keeps %r which %s with the same '
-                          'parameters on the same tables does not' % (fspec, sorted(extra)[:3], other),
+            rec.violation('refinement', '%s: PositionFilter.filter_tables(n_jobs=%d) keeps %r which %s with '
+                          'the same parameters on the same tables does not' % (fspec, n_jobs,
+                                                                               sorted(extra)[:3], other),
                           case=case)
+    # size tightness on the same random tables (incl. zero-token values)
+    m, t = fspec['measure'], fspec['threshold']
+    view = oracle.TableView({'ltable': L, 'rtable': R, 'l_key': 'lid', 'r_key': 'rid', 'l_attr': 'lattr',
+                             'r_attr': 'rattr', 'tok': tok}, bag=ed)
+    for (lk, rk) in outs['SizeFilter']:
+        i, j = view.lpos.get(lk), view.rpos.get(rk)
+        if i is None or j is None or view.lmiss[i] or view.rmiss[j]:
+            continue
+        a, b = len(view.ltoks[i]), len(view.rtoks[j])
+        if a == 0 and b == 0:
+            continue
+        rec.count('size_random_pairs')
+        if m == 'EDIT_DISTANCE':
+            bad = abs(a - b) > t
+        elif m == 'OVERLAP':
+            bad = False
+        else:
+            bad = (a == 0 or b == 0) or best_sim(m, a, b) < t - 1e-4
+        if bad:
+            rec.violation('size_tight', '%s: SizeFilter.filter_tables keeps (%r, %r) with token counts (%d,%d)'
+                          % (fspec, lk, rk, a, b), case=case)
     rec.count('subset_pairs', len(outs['PositionFilter']))
     return {'n': len(outs['PositionFilter']), 'fspec': fspec}
 
